@@ -224,8 +224,8 @@ pub fn case_json(mat: &Mat, s: f64, kind: &str, step: Option<usize>, o: &QueryOu
     m.insert(
         "rust_repro".into(),
         json!(format!(
-            "let pssm = ScoringMatrix::<Dna>::new(Background::from_counts(&GenericArray::from({:?})).unwrap(), DenseMatrix::from_rows({:?})); let mut t = TfmPvalue::new(&pssm); for it in t.approximate_pvalue({:?}) {{ println!(\"{{:?}}\", it); }}",
-            mat.bg_counts, mat.rows, s
+            "let pssm = ScoringMatrix::<Dna>::new(Background::from_counts(&GenericArray::from({:?})).unwrap(), DenseMatrix::from_rows({})); let mut t = TfmPvalue::new(&pssm); for it in t.approximate_pvalue({:?}) {{ println!(\"{{:?}}\", it); }}",
+            mat.bg_counts, mat.rust_rows(), s
         )),
     );
     v
@@ -234,15 +234,14 @@ pub fn case_json(mat: &Mat, s: f64, kind: &str, step: Option<usize>, o: &QueryOu
 pub struct TierCfg {
     pub widths: Vec<usize>,
     pub pseudos: Vec<f32>,
-    pub thorough: bool,
 }
 
 impl TierCfg {
     pub fn of(ctx: &Ctx) -> TierCfg {
         if ctx.quick() {
-            TierCfg { widths: vec![2, 3, 4, 5, 6], pseudos: vec![0.25, 1.0], thorough: false }
+            TierCfg { widths: vec![2, 3, 4, 5, 6], pseudos: vec![0.25, 1.0] }
         } else {
-            TierCfg { widths: vec![2, 3, 4, 5, 6, 7, 8], pseudos: vec![0.1, 0.25, 1.0], thorough: true }
+            TierCfg { widths: vec![2, 3, 4, 5, 6, 7, 8], pseudos: vec![0.1, 0.25, 1.0] }
         }
     }
     /// number of cyclic windows of the count rows taken at width m
@@ -291,7 +290,11 @@ pub fn run(ctx: &mut Ctx, rep: &mut Report) {
                 rep.violation(f.sig.clone(), f.msg.clone(), || case_json(&e.mat, s, kind, f.step, &o));
             }
             if e.mat.width() == 3 && kind == "attainable + 1e-4" && qi > 10 {
-                rep.sample_space(2, || case_json(&e.mat, s, kind, None, &o));
+                rep.sample_space(2, || {
+                    let mut v = case_json(&e.mat, s, kind, None, &o);
+                    v["oracle"] = json!({"words_enumerated": ex.words, "letters": ex.letters, "distinct_scores": ex.scores.len(), "P(S>=s)": ex.tail_ge(s)});
+                    v
+                });
             }
             if qi % 64 == 63 && ctx.out_of_time() {
                 break;
